@@ -84,7 +84,7 @@ def main():
     allchecks = ["C%02d" % i for i in range(1, 21)]
     todo = []
     for p in patches():
-        if a.only and a.only not in p["name"]:
+        if a.only and not any(o in p["name"] for o in a.only.split(",")):
             continue
         owner = p["property"] or REVERT_OWNER.get(p["name"])
         checks = a.checks.split(",") if a.checks else (allchecks if a.all_checks else [owner])
